@@ -244,6 +244,32 @@ def sub (a b : Equil α) : Except String (Equil α) := do
   let nb ← rmul (-1) b
   add a nb
 
+/-- an operand of `+` / `-` as Python sees it: an equilibrium, or a number (the `0` that `sum(eqs)` starts from) -/
+inductive Operand (α : Type) where
+  | eq (e : Equil α)
+  | number
+
+/-- `x + y`: `Equilibrium.__add__` reads `other.reac` (a number has none: `AttributeError`); there is no `__radd__`, so a
+    number on the left is `TypeError` -/
+def addPy : Operand α → Operand α → Except String (Equil α)
+  | .eq a, .eq b => add a b
+  | .eq _, .number => .error "AttributeError"
+  | .number, _ => .error "TypeError"
+
+/-- `x - y`: `self + -1 * other` (`-1 * number` is a number again); no `__rsub__` -/
+def subPy : Operand α → Operand α → Except String (Equil α)
+  | .eq a, .eq b => sub a b
+  | .eq _, .number => .error "AttributeError"
+  | .number, _ => .error "TypeError"
+
+/-- `sum(eqs)` (`start = none`: starts from the int 0, so any non-empty list is refused and the empty one gives 0 = `none`)
+    and `sum(eqs, start)` (left fold of `+`) -/
+def sumPy (start : Option (Equil α)) (l : List (Equil α)) : Except String (Option (Equil α)) :=
+  match start, l with
+  | none, [] => .ok none
+  | none, _ :: _ => .error "TypeError"
+  | some s, l => do let r ← l.foldlM add s; pure (some r)
+
 /-- expression trees over equilibria: every history of scale / negate / add / subtract -/
 inductive EqExpr (α : Type) where
   | leaf (e : Equil α)
